@@ -87,6 +87,7 @@ PROPS = {
                   ("DT", 7, has("BddPtr", "BottomUpBuilder::or:", "BottomUpBuilder::compose:")),
                   ("FS", 2, has("or_lst", "and_lst")), ("ST", 2, None), ("GL", 1, has("GL6")), ("VO", 14, vo_sel("::bdd::", "var_order")),
                   ("GL", 9, has(":GL1:", ":GL2:", "ite_helper:GL4", ":GL5:", ":GL8:", "ite_helper:GL11")),
+                  ("PM", 2, has("::set:", "assignment_iter")),
                   ("SH", 5, has("RobddBuilder", "BottomUpBuilder<repr::bdd::BddPtr> for T>::var")),
                   ("MK", 1, has("::bdd::"))],
         "explanation": "Six structural clauses of BDD operation correctness. (e) the standard-triple normalisation Ite::new "
@@ -120,7 +121,8 @@ PROPS = {
     "C06": {
         "level": "other",
         "rules": [("CP", 4, has("decision_nnf::")), ("TS", 7, has("TS-BAL")), ("DP", 3, has("topdown")),
-                  ("GL", 2, has("component-cache", "topdown_h:GL11")), ("SP", 10, has("SP1")),
+                  ("GL", 3, has("component-cache", "topdown_h:GL11")), ("SP", 10, has("SP1")),
+                  ("GL", 1, has("GL3:return-found")), ("RH", 1, has("grow:rehome")),
                   ("SH", 6, has("decision_nnf::")), ("RN", 5, has("RN4")),
                   ("WP", 4, has("update_hash_and_sat_set")), ("PR", 1, has("SATSolver")),
                   ("TD", 4, None), ("VO", 1, vo_sel("decision_nnf", only_label_order=True)),
@@ -147,7 +149,7 @@ PROPS = {
     },
     "C08": {
         "level": "other",
-        "rules": [("SL", 7, None), ("CP", 2, has("smooth_helper")), ("VO", 2, has("var_at_level"))],
+        "rules": [("SL", 7, None), ("CP", 2, has("smooth_helper")), ("VO", 3, has("var_at_level", "new_last")), ("LAW", 55, None)],
         "explanation": "Level bookkeeping of smooth_helper: every node built is labelled with var_at_level(current) or with a "
                        "node variable that a dominating test equates with it, children recurse one level down, smooth starts "
                        "at level 0 (SL); the complemented arm is sign-coherent (CP); callers count on smooth(_, num_vars) "
@@ -155,7 +157,7 @@ PROPS = {
     },
     "C10": {
         "level": "proof",
-        "rules": [("SP", 17, None), ("IM", 9, has("IM5")), ("HE", 3, has("scratch-private")), ("GL", 8, has("GL6", "GL9")),
+        "rules": [("SP", 17, None), ("IM", 9, has("IM5")), ("HE", 3, has("scratch-private")), ("HE", 3, has(":fields")), ("GL", 8, has("GL6", "GL9")),
                   ("DP", 2, has("unsmoothed_wmc:fold", "evaluate:via-count"))],
         "explanation": "Structural proof of 'every per-node scratch slot is empty again when a public call returns', for all "
                        "call sequences: the only per-node mutable state is the two private RefCell fields (HE), the scratch "
@@ -169,7 +171,7 @@ PROPS = {
     "C11": {
         "level": "other",
         "rules": [("CP", 4, has("cached_semantic_hash:sign", "check_cached_hash_and_neg")), ("IM", 3, has("IM5:semantic_hash")),
-                  ("NB", 33, None), ("IC", 4, has("create_semantic_hash_map")), ("GL", 6, has("GL7", "GL3:return-found")), ("WC", 2, has("sdd-apply-cache")),
+                  ("NB", 33, None), ("IC", 4, has("create_semantic_hash_map")), ("GL", 6, has("GL7", "GL3:return-found")), ("WC", 2, has("sdd-apply-cache")), ("RH", 1, has("grow:rehome")),
                   ("CP", 3, has("decision_nnf::builder::DecisionNNFBuilder::cond_helper")), ("SE", 11, None)],
         "explanation": "Hash values follow the pointer's sign (complemented -> negate(hash of the regular pointer)) and a node "
                        "found under the negated hash is returned complemented, in both semantic builders (CP-hash); the per-node "
@@ -208,7 +210,8 @@ PROPS = {
                   ("FS", 10, has("compile_cnf", "or_lst", "and_lst", "from_dtree")), ("DT", 1, has("BottomUpBuilder::or:")),
                   ("SH", 5, has(":CC:")), ("ST", 2, None), ("GL", 1, has("GL6")),
                   ("CP", 3, has("cond_with_alloc", "condition_essential")), ("LC", 1, has("compile_cnf_with_assignments")),
-                  ("LE", 7, None), ("NC", 1, has("DTree::from_cnf")), ("WC", 4, has("bdd-node"))],
+                  ("LE", 7, None), ("NC", 1, has("DTree::from_cnf")), ("WC", 4, has("bdd-node")),
+                  ("CN", 1, has("Cnf::new")), ("VO", 1, has("first_essential"))],
         "explanation": "Every variant of LogicalExpr and BottomUpPlan is compiled by its namesake operation with operands in "
                        "order, a dtree becomes a conjunction of clause disjunctions of the literal's own label and polarity "
                        "with the empty clause false (DP; none of these arms is executed by the test-suite); empty-formula / "
@@ -230,7 +233,7 @@ PROPS = {
     },
     "C12": {
         "level": "other",
-        "rules": [("BB", 22, None), ("LAW", 6, has(":join", ":meet", ":choose")),
+        "rules": [("BB", 22, None), ("LAW", 6, has(":join", ":meet", ":choose")), ("LAW", 5, has("ExpectedUtility:mul", "ExpectedUtility:distrib", "ExpectedUtility:add", "ExpectedUtility:one", "ExpectedUtility:zero")),
                   ("FS", 2, has("marginal_map_eval", "bb_ub")), ("PM", 3, has("::set:", "::get:", "assignment_iter"))],
         "explanation": "Decides the part of 'returns the optimum and an assignment attaining it' that is in the shape of the three "
                        "sibling searches (marginal_map_h, meu_h, bb_h), their bound functions and drivers, checked identically on "
@@ -291,7 +294,7 @@ PROPS = {
         "level": "other",
         "rules": [("DP", 12, has("from_sexpr", "VTreeSerializer", "from_dimacs", "to_dimacs")), ("IC", 1, has("from_dimacs")),
                   ("CP", 6, has("serialize::")), ("CN", 1, has("repr::cnf::")), ("SR", 3, None), ("LE", 7, None),
-                  ("NC", 4, has("from_dimacs")), ("SP", 0, has("SP1:serialize", "SP1:ffi::bdd::bdd_to_json"))],
+                  ("NC", 5, has("from_dimacs", "to_dimacs")), ("SP", 0, has("SP1:serialize", "SP1:ffi::bdd::bdd_to_json"))],
         "explanation": "The s-expression translation and the vtree mirror map each variant to its namesake with children in "
                        "order (DP); DIMACS signs map Neg to false and Pos to true in both parsers (DP); the CNF parser "
                        "subtracts one from the 1-based DIMACS variable (IC OneBased -> Index). Not decided: model-level "
@@ -312,7 +315,7 @@ PROPS = {
     "C19": {
         "level": "other",
         "rules": [("MP", 8, None), ("SL", 7, None), ("CP", 3, has("ser_bdd")), ("VO", 3, has("var_at_level", "VarOrder::new:inverse-by-construction")),
-                  ("CN", 1, has("dedup")), ("DP", 9, has("from_dimacs:sign", "from_sexpr")), ("SR", 1, has("ser_bdd")),
+                  ("CN", 1, has("dedup")), ("DP", 9, has("from_dimacs:sign", "from_sexpr")), ("DP", 4, has("compile_logical_expr", "BottomUpPlan::from_dtree")), ("SR", 1, has("ser_bdd")),
                   ("NC", 2, has("Cnf::from_dimacs"))],
         "explanation": "In each tool the counted / serialised diagram is the compiled one, compiled on a builder whose order "
                        "comes from the same formula; counts are taken on smooth(_, num_vars); weights are keyed by the "
